@@ -107,6 +107,10 @@ REPLAY_PROFILES = {
     'release': ({}, ['--release']),
     'dev-swar': ({'CARGO_CFG_HTTPARSE_DISABLE_SIMD': '1'}, []),
     'release-swar': ({'CARGO_CFG_HTTPARSE_DISABLE_SIMD': '1'}, ['--release']),
+    'dev-sse42': ({'RUSTFLAGS': '-C target-feature=+sse4.2'}, []),
+    'release-sse42': ({'RUSTFLAGS': '-C target-feature=+sse4.2'}, ['--release']),
+    'dev-avx2': ({'RUSTFLAGS': '-C target-feature=+avx2'}, []),
+    'release-avx2': ({'RUSTFLAGS': '-C target-feature=+avx2'}, ['--release']),
 }
 
 
